@@ -10,6 +10,9 @@
 //!   × feature records 0..=3 (dlig: 1 entry-map record, liga: 2, smcp: 1)
 //!   × entry-map data length ∈ {0, half, required−1, required, required+1} of the announced records
 //!   × subset definitions: features {dlig}, {liga}, {smcp}, {zzzz}, all, none × code points {U+41}, all, none.
+//! Plus `big_variants`: entry-map record counts 16383, 16384, 32767, 32768, 65535 (2-byte fields), sums above
+//! 65535, firstNewEntryIndex 65535, and 129/130/258 records x 255 (1-byte fields) — the loop's u16 index
+//! arithmetic — x patch format {1,3} x {complete, half} data x the same subset definitions.
 //! Each tuple goes through `intersecting_patches` and `PatchGroup::select_next_patches` (+ `uris`).
 //! Oracle: returns Ok/Err, never panics.
 
@@ -92,6 +95,71 @@ pub fn table(gm: u16, em: u16, patch_format: u8, records: usize, len_kind: usize
     t
 }
 
+/// Large entry-map record counts (the feature-map loop does its index arithmetic on u16 values):
+/// (name, maxGlyphMapEntryIndex, maxEntryIndex, feature records as (tag, firstNewEntryIndex, entryMapCount)).
+/// In every variant the *last* record is `smcp`, so the definition "features smcp" skips all earlier records
+/// (accumulating their counts) and reads only records behind them.
+pub fn big_variants() -> Vec<(String, u16, u16, Vec<([u8; 4], u32, u32)>)> {
+    let mut v = vec![];
+    for c0 in [16383u32, 16384, 32767, 32768, 65535] {
+        v.push((format!("2-byte fields: dlig x {c0} records, then smcp x 2"), 300u16, 65535u16, vec![(*b"dlig", 301, c0), (*b"smcp", 400, 2)]));
+    }
+    v.push(("2-byte fields: dlig x 40000, liga x 40000 (sum > 65535), smcp x 2".into(), 300, 65535, vec![(*b"dlig", 301, 40000), (*b"liga", 302, 40000), (*b"smcp", 400, 2)]));
+    v.push(("2-byte fields: smcp firstNewEntryIndex 65535 x 2 records".into(), 300, 65535, vec![(*b"smcp", 65535, 2)]));
+    for n in [129usize, 130, 258] {
+        // 1-byte fields: n records of 255 entry-map records each (n*255 crosses 32768 / 65536), then smcp
+        let mut recs: Vec<([u8; 4], u32, u32)> = (0..n).map(|i| ([b'a', b'0' + (i / 100) as u8, b'0' + (i / 10 % 10) as u8, b'0' + (i % 10) as u8], 200, 255)).collect();
+        recs.push((*b"smcp", 201, 2));
+        v.push((format!("1-byte fields: {n} records x 255 entry-map records, then smcp x 2"), 100, 255, recs));
+    }
+    v
+}
+
+/// Format 1 table for a `big_variants` entry; `full` = complete entry-map data, else half of it.
+pub fn big_table(gm: u16, em: u16, patch_format: u8, recs: &[([u8; 4], u32, u32)], full: bool) -> Vec<u8> {
+    let w = if em < 256 { 1 } else { 2 };
+    let mut t = vec![1u8, 0, 0, 0, 0];
+    for c in [1u32, 2, 3, 4] {
+        put(&mut t, c, 4);
+    }
+    put(&mut t, em as u32, 2);
+    put(&mut t, gm as u32, 2);
+    put(&mut t, 7, 3);
+    let off_pos = t.len();
+    put(&mut t, 0, 4);
+    put(&mut t, 0, 4);
+    t.extend(vec![0u8; (em as usize + 8) / 8]);
+    put(&mut t, 6, 2);
+    t.extend_from_slice(b"p/{id}");
+    t.push(patch_format);
+    let gmo = t.len() as u32;
+    put(&mut t, 2, 2);
+    for e in [1u32, gm as u32, gm as u32 / 2, 0, gm as u32] {
+        put(&mut t, e, w);
+    }
+    let fmo = t.len() as u32;
+    put(&mut t, recs.len() as u32, 2);
+    let mut total = 0usize;
+    for (tag, first, count) in recs {
+        t.extend_from_slice(tag);
+        put(&mut t, *first, w);
+        put(&mut t, *count, w);
+        total += *count as usize;
+    }
+    let mut data = Vec::with_capacity(total * 2 * w);
+    for k in 0..total {
+        put(&mut data, (k as u32 % 3).min(gm as u32), w);
+        put(&mut data, gm as u32, w);
+    }
+    if !full {
+        data.truncate(data.len() / 2);
+    }
+    t.extend(data);
+    t[off_pos..off_pos + 4].copy_from_slice(&gmo.to_be_bytes());
+    t[off_pos + 4..off_pos + 8].copy_from_slice(&fmo.to_be_bytes());
+    t
+}
+
 pub fn font(ift: Vec<u8>) -> Vec<u8> {
     let mut fb = FontBuilder::new();
     fb.add_raw(Tag::new(b"IFT "), ift);
@@ -147,6 +215,9 @@ pub const ST: usize = 16;
 
 /// `{"driver":"ift","family":"format1_width","gm":index,"em":index,"only":idx?,"from":idx?}`
 pub fn drive(spec: &Value) -> CaseOut {
+    if spec["big"].as_bool() == Some(true) {
+        return drive_big(spec);
+    }
     let (Some(gi), Some(ei)) = (spec["gm"].as_u64(), spec["em"].as_u64()) else {
         return crate::bad_case(format!("bad format1_width case {spec}"));
     };
@@ -194,8 +265,66 @@ pub fn drive(spec: &Value) -> CaseOut {
     acc.finish()
 }
 
+/// items of a "big" case (one case per variant): patch format {1,3} x {full, half} entry-map data
+fn big_item(idx: u64) -> (u8, bool) {
+    ([1u8, 3][(idx / 2 % 2) as usize], idx % 2 == 0)
+}
+
+pub fn describe_big(spec: &Value) -> String {
+    let Some(idx) = spec["only"].as_u64() else {
+        return String::new();
+    };
+    let (pf, full) = big_item(idx);
+    let vi = spec["variant"].as_u64().unwrap_or(0) as usize;
+    big_variants().get(vi).map(|v| format!("{}; patch format {pf}; entry-map data {}", v.0, if full { "complete" } else { "half" })).unwrap_or_default()
+}
+
+/// `{"driver":"ift","family":"format1_width","big":true,"variant":v,"only":idx?,"from":idx?}`
+fn drive_big(spec: &Value) -> CaseOut {
+    let variants = big_variants();
+    let Some(vi) = spec["variant"].as_u64().map(|v| v as usize).filter(|v| *v < variants.len()) else {
+        return crate::bad_case(format!("bad format1_width big case {spec}"));
+    };
+    let mut acc = Acc::new("ift");
+    let only = spec["only"].as_u64();
+    let all_defs = defs();
+    for idx in spec["from"].as_u64().unwrap_or(0)..4 {
+        if only.map(|o| o != idx).unwrap_or(false) {
+            continue;
+        }
+        set_sub(idx);
+        acc.sub_override = Some(idx);
+        let (pf, full) = big_item(idx);
+        let (_, gm, em, recs) = &variants[vi];
+        let bytes = font(big_table(*gm, *em, pf, recs, full));
+        for (di, (_, def)) in all_defs.iter().enumerate() {
+            acc.evals += 1;
+            let mut h = Fnv::new();
+            h.str("format1_big");
+            h.u64(((vi as u64) << 16) + (idx << 8) + di as u64);
+            let r = acc.call(ST, || {
+                let font = FontRef::new(&bytes).ok()?;
+                Some(intersecting_patches(&font, def).map(|v| v.iter().take(64).map(|u| format!("{:?}", u.uri_string())).collect::<Vec<_>>()))
+            });
+            h.str(&format!("{r:?}"));
+            let ok = matches!(&r, Some(Some(Ok(v))) if !v.is_empty());
+            let r2 = acc.call(crate::iftdrv::ST_SELECT, || {
+                let font = FontRef::new(&bytes).map_err(|e| format!("{e:?}"))?;
+                let g = PatchGroup::select_next_patches(font, def).map_err(|e| format!("{e:?}"))?;
+                Ok::<_, String>((g.has_uris(), g.uris().take(64).map(|s| s.to_string()).collect::<Vec<_>>()))
+            });
+            h.str(&format!("{r2:?}"));
+            if ok {
+                acc.count("intersect_nonempty");
+            }
+            acc.observe(h.finish(), ok);
+        }
+    }
+    acc.finish()
+}
+
 pub fn gen_cases() -> Vec<Value> {
-    let mut out = vec![];
+    let mut out: Vec<Value> = (0..big_variants().len()).map(|v| json!({"driver": "ift", "family": "format1_width", "big": true, "variant": v})).collect();
     for gm in 0..GLYPH_MAP_MAX.len() {
         for em in 0..ENTRY_MAX.len() {
             out.push(json!({"driver": "ift", "family": "format1_width", "gm": gm, "em": em}));
@@ -207,7 +336,8 @@ pub fn gen_cases() -> Vec<Value> {
 pub fn bounds() -> Value {
     json!({"maxGlyphMapEntryIndex": GLYPH_MAP_MAX, "maxEntryIndex": ["same", 255, 256, 300, 65535], "patch_formats": [1, 3],
         "feature_records": "0..=3 (dlig 1, liga 2, smcp 1 entry-map records)", "entry_map_data_length": LENGTHS,
-        "subset_definitions": defs().iter().map(|d| d.0.clone()).collect::<Vec<_>>(), "tables": GLYPH_MAP_MAX.len() as u64 * ENTRY_MAX.len() as u64 * ITEMS})
+        "subset_definitions": defs().iter().map(|d| d.0.clone()).collect::<Vec<_>>(), "tables": GLYPH_MAP_MAX.len() as u64 * ENTRY_MAX.len() as u64 * ITEMS,
+        "large_record_counts": big_variants().iter().map(|v| v.0.clone()).collect::<Vec<_>>()})
 }
 
 /// Gate (machinery): the well-formed member (limits 300/300, 3 records, full data, all features, all code points)
